@@ -6,6 +6,10 @@ import os
 VERIF = os.path.dirname(os.path.dirname(os.path.abspath(__file__)))
 
 CLAIMED = {
+    "C06": dict(level="exploration", design="3/C06",
+                technique="deterministic simulation: seeded addition histories over id-mutated start decks with held handles, turbo-add buggify knob, checkpoint/restart; uniqueness/range/stability invariants after every event + remembered id->content lookups re-checked later and after restart",
+                text="Seeded search over addition histories on start decks whose stored ids were rewritten by a seeded mutator; after every event newly assigned shape ids (read from the part's XML), slide ids, relationship ids in use and part names are checked for freshness, range, stability and uniqueness, and remembered id lookups must still designate the same content later and after restart.",
+                note="trusted: lxml parse of part blobs; only newly assigned ids are judged; turbo-add only with a single held handle"),
     "C04": dict(level="exploration", design="3/C04",
                 technique="deterministic simulation: seeded assignment histories at 4 levels on text bodies in generated prior states with checkpoint/restart scheduling; executable text-translation model + structure counts (public API and independent parse of saved bytes) + persistence across restarts",
                 text="Seeded search over text-assignment histories (frame, cell, paragraph, run; strings over XML Char plus C0 controls) on text boxes, placeholders, table cells and notes in prior states produced by other text operations, with saves and restarts in between; read-back is compared with an executable model of the documented translations, paragraph/break counts are checked through the API and in the saved XML, and every recorded reading must persist across later operations and restarts.",
